@@ -10,13 +10,13 @@ WHAT = {
  "C05": "4 seeds x every single mutation of the menu x 4 open modes; crafted hostile structures (9 recursive structures x 36 link patterns x sizes 1..24 and up to 1000); one stream per filter chain of length <= 3 x 5 payloads; 11 k LZW table-state streams; crafted cross-reference wirings (/Prev, /XRefStm over <= 8 sections, every integer token of the sections) and /Length wirings (2 object streams, <= 2 stream nodes inside or outside them), each also behind 1..1000 bytes of prefix; all pairs of link rewirings on the first seed",
  "C06": "predictor grid, LZW boundaries, CCITT parameter product with all small bitmaps, 166 chains, chunkings (every cut into <= 3 writes through an overwritten transfer buffer; notes/C06.md)",
  "C07": "the C06 spaces restricted to algorithms with a second implementation, both directions; chunked writes (every cut into <= 3 writes) judged by the independent decoders",
- "C08": "306 seeds, 433 k byte mutations, 9.5 k header claims, 630 bombs, 47 k parameter-dictionary corruptions, 95 k chains of length <= 2, all 11^3 chains of length 3 with valid / multi-layer-bomb / bad-parameter bodies, 39 k LZW table-state bodies, 226 k JBIG2 segment programs",
- "C09": "14 x 14 password pairs x 9 versions x 3 metadata modes x 15 try-passwords; 128 permission sets x 9 versions x 3 pairs; 2 bounds x 14 boundary passwords x 3 roles x 9 versions x 71 tries; 361 stream/string lengths x 4 write x 5 read chunkings x 9 versions",
- "C10": "Writer files judged by ref/stdsec (password pairs x versions x metadata x IDs x permissions x (number, generation) pairs x 271 write orders), reference files opened by the Reader (11 handler configurations)",
- "C11": "source graphs (incl. stale-generation references, both spellings of one-element filter chains, hand-made direct values with nil entries) x BFS over Copy/CopyReference/Redirect programs of <= 3 calls x encryption pairs",
+ "C08": "306 seeds (also through pdf.ReadAll with 3 limits), 433 k byte mutations, 9.5 k header claims, 630 bombs, 47 k parameter-dictionary corruptions, 95 k chains of length <= 2, all 11^3 chains of length 3 with valid / multi-layer-bomb / bad-parameter bodies, 39 k LZW table-state bodies, 226 k JBIG2 segment programs, 49 k JBIG2 parameter programs, 76 k progressive-JPEG scan programs",
+ "C09": "14 x 14 password pairs x 9 versions x 3 metadata modes x 15 try-passwords; 128 permission sets x 9 versions x 3 pairs; 2 bounds x 14 boundary passwords x 3 roles x 9 versions x 71 tries; 361 stream/string lengths x 4 write x 5 read chunkings x 9 versions; aliasing family; strings at depth 0-2 of arrays and dictionaries of 29 widths (1..1025) x 4 write routes x 8 versions",
+ "C10": "Writer files judged by ref/stdsec (password pairs x versions x metadata x IDs x permissions x (number, generation) pairs x 271 write orders; 48 passwords by length structure per truncation bound), reference files opened by the Reader (11 handler configurations)",
+ "C11": "20 spaces of source graphs (incl. stale-generation references, both spellings of one-element filter chains, references inside /DecodeParms, 6 192 filter chains of length 2-3 with every per-position parameter entry, hand-made direct values with nil entries) x BFS over Copy/CopyReference/Redirect programs of <= 3 calls x encryption pairs",
  "C12": "4.0 M range sets (3.25 M valid), every string over the induced partition",
- "C13": "7^6 CID maps and 10^5 ToUnicode maps per window x 10 windows x code spaces x chain configurations; 17^5 ToUnicode maps (multi-rune relations) on 3 windows; hand-built files; 1.1 M file round trips",
- "C14": "59 fonts x strings of length <= 3 over 9 characters x 4 versions, interleavings, fill-ups, retexts",
+ "C13": "7^6 CID maps and 10^5 ToUnicode maps per window x 10 windows x code spaces x chain configurations; 17^5 ToUnicode maps (multi-rune relations) on 3 windows; hand-built files; 63 chain code space assignments x complete child/parent maps (1.8 M chains); 1.6 M file round trips",
+ "C14": "59 fonts x strings of length <= 3 over 9 characters x 4 versions, interleavings, fill-ups, retexts; 17 k dressed glyph sequences (per glyph Rise x Advance adjustment, Skip) on 20 font kinds",
  "C15": "operators x operand tuples, adjacency pairs, triples, 19 850 inline-image data strings, splits, 5 866 reals by digit structure; Builder BFS to depth 6/5, every accepted history again with Harvest before one and two of its calls",
  "C16": "6 BFS profiles over page-tree writer histories",
  "C17": "all 2^14 key subsets x 2 entry points, number subsets, 1 281 size cases incl. 262 145; 2 828 writer-context cases (trees inside open streams, two trees, nested writes); 510 k reader programs (Lookup / All / next / abandon, <= 3 operations) on one FromFile",
